@@ -128,6 +128,9 @@ LEXEMES = [
     '!=', '===', '!==', '+', '-', '*', '%', '++', '--', '<<', '>>', '>>>',
     '&', '|', '^', '!', '~', '&&', '||', '?', ':', '=', '+=', '-=', '*=',
     '%=', '<<=', '>>=', '>>>=', '&=', '|=', '^=', '/', '/=',
+    # a supplementary-plane character inside a token (two UTF-16 code units,
+    # one character): what follows on the line is one column further on
+    "'\U0001f600'", '/*\U0001f600*/', '/\U0001f600/',
 ]
 
 
